@@ -115,6 +115,9 @@ impl TulispObject {
     /// [here](https://www.gnu.org/software/emacs/manual/html_node/elisp/Equality-Predicates.html).
     pub fn eq(&self, other: &TulispObject) -> bool {
         self.eq_ptr(other)
+            || (self.null() && other.null())
+            || (matches!(&*self.inner_ref(), TulispValue::T)
+                && matches!(&*other.inner_ref(), TulispValue::T))
             || other.inner_ref().lex_symbol_eq(self)
             || self.inner_ref().lex_symbol_eq(other)
     }
